@@ -57,12 +57,13 @@ def harvest(repo):
 
 
 FORMS_SMALL = ("rows", "cells", "rowlen", "emptyrun", "nonempty")
-FORMS_BIG = ("rows", "rowlen", "cells")
+FORMS_BIG = ("rows", "rowlen", "cells", "nonempty")
 
 
-def plan(repo, tier, cap=300000, files=None):
+def plan(repo, tier, cap=300000, files=None, cap_cells=1 << 23):
     """[(size, form, reps, novel)] -- novel constants first.  `files`: only constants that occur in one of these source files
-    (None = all).  Sizes above `cap` are left out (resource limit of the workload, recorded in the evidence)."""
+    (None = all).  Sizes above `cap` are used as numbers of cells / lengths of one row only (up to `cap_cells`, novel constants only);
+    anything larger is left out (resource limit of the workload, recorded in the evidence)."""
     consts = harvest(repo)
     novel = [c for c in consts if c not in BASELINE and (files is None or any(f in files for f in consts[c]))]
     # a large constant may be a budget in bytes or in bits: the element counts it corresponds to (item sizes 2, 4, 8 bytes; 8 bits) count as well
@@ -78,13 +79,15 @@ def plan(repo, tier, cap=300000, files=None):
         for c in grp:
             for d in ((0, 1, -1) if (isnovel or c <= 1000) else (0, 1)):
                 s = c + d
-                if s < 2 or s > cap or (s, isnovel) in seen:
+                if s < 2 or (s, isnovel) in seen or s > (cap_cells if isnovel else cap):
                     continue
                 seen.add((s, isnovel))
                 big = s > 20000
                 forms = FORMS_BIG if big else FORMS_SMALL
                 if not isnovel and big:
                     forms = FORMS_BIG[:2]
+                if s > cap:
+                    forms = ("cells", "rowlen")
                 for form in forms:
                     reps = (3 if isnovel else 1) if big else (6 if isnovel else 2)
                     if tier != "quick":
@@ -93,7 +96,7 @@ def plan(repo, tier, cap=300000, files=None):
     return out
 
 
-def summary(repo, cap=300000):
+def summary(repo, cap=300000, cap_cells=1 << 23):
     consts = harvest(repo)
     return {"constants": {str(k): v for k, v in consts.items()}, "novel": [c for c in consts if c not in BASELINE],
-            "left_out_above_cap": [c for c in consts if c + 1 > cap]}
+            "only_as_cells_or_row_length": [c for c in consts if cap < c + 1 <= cap_cells], "left_out": [c for c in consts if c + 1 > max(cap, cap_cells)]}
